@@ -156,6 +156,11 @@ DescriptorFail(dtype, len, data, vid, pid) ==
        ELSE IF dtype = 2 /\ len >= full /\ ~ConfigDescOK(data) THEN "configuration_descriptor_malformed"
        ELSE "ok"
 
+\* CLEAR_FEATURE(ENDPOINT_HALT) for one direction of the data endpoint [USB2.0 9.4.5]: when the device accepts it, that
+\* direction's data toggle restarts at DATA0 (the host restarts its own toggle too, so anything else loses or duplicates
+\* bytes afterwards).  Env: the host issues it for the IN direction only while no IN packet is waiting for its ACK.
+IsClearHalt(req) == req.type = 0 /\ req.request = 1 /\ req.recipient = 2 /\ ~req.dirin /\ req.length = 0 /\ req.value = 0
+
 CtlFail(a, req, outcome, data, vid, pid) ==
     IF a # addr THEN (IF outcome = "no_response" THEN "ok" ELSE "answered_foreign_address")
     ELSE IF req.type \in {2, 3} THEN (IF outcome = "stall" THEN "ok" ELSE "vendor_or_reserved_request_not_stalled")
@@ -173,6 +178,7 @@ CtlFail(a, req, outcome, data, vid, pid) ==
         (IF outcome = "ok" THEN "ok" ELSE "set_configuration_failed")
     ELSE IF req.request = 8 /\ req.dirin /\ req.recipient = 0 /\ req.length = 1 THEN
         (IF outcome = "ok" /\ data = <<cfg>> THEN "ok" ELSE "get_configuration_wrong")
+    ELSE IF IsClearHalt(req) /\ req.index = 132 /\ inFlight # <<>> THEN "env_clear_halt_while_in_packet_unacknowledged"
     ELSE IF outcome \in {"ok", "stall"} THEN "ok"          \* other standard requests: not constrained here (C10)
     ELSE "control_transfer_protocol_error"
 
@@ -186,7 +192,9 @@ Ctl(a, req, outcome, data) ==
        /\ cfg'  = IF isSetCfg THEN req.value % 256 ELSE cfg
        /\ known' = IF isFullDesc /\ known[req.value \div 256] = <<>>
                    THEN [known EXCEPT ![req.value \div 256] = data] ELSE known
-       /\ UNCHANGED <<outTog, inTog, inFlight, zlpOwed, hostWritten, rxDelivered, txOffered, hostRead>>
+       /\ outTog' = IF mine /\ IsClearHalt(req) /\ req.index = 4 THEN 0 ELSE outTog
+       /\ inTog'  = IF mine /\ IsClearHalt(req) /\ req.index = 132 THEN 0 ELSE inTog
+       /\ UNCHANGED <<inFlight, zlpOwed, hostWritten, rxDelivered, txOffered, hostRead>>
 
 -----------------------------------------------------------------------------
 (* Quiescence: the harness has drained both directions (rx consumer ready, IN polled until NAK). *)
